@@ -149,11 +149,13 @@ def main():
         open_keys.setdefault((r['contract'], r.get('receiver')), []).append((r, o))
     bounded_info = {}
     for (cname, recv), items in open_keys.items():
-        bd = P.get('bounds', {}).get(cname, {})
+        bd = P.get('bounds', {}).get(cname, P.get('bounds', {}).get('*', {}))
         req = {'mode': 'enum', 'contract': cname, 'receiver': recv, 'bounds': bd, 'limit': 30000 if args.tier == 'quick' else 400000,
                'random': 40000 if args.tier == 'quick' else 400000, 'seed': seed}
         res = harness(req, timeout=900)
         bounded_info[cname] = {k: res.get(k) for k in ('evaluations', 'in_domain', 'exhaustive', 'bounds', 'status')}
+        if res.get('status') == 'harness-error':
+            print('NOTE: bounded stand-in for %s could not run: %s' % (cname, (res.get('stderr') or '')[-300:].replace('\n', ' | ')))
         fails = res.get('failures') or []
         if fails:
             f = fails[0]
